@@ -19,7 +19,7 @@
 (***************************************************************************)
 EXTENDS Arrays, Json
 
-CONSTANTS MaxDepth, Focus, Emit     \* Focus = "all" | "cache" (a reduced action menu aimed at cached state, explored deeper)
+CONSTANTS MaxDepth, Focus, Emit, SeedIds     \* SeedIds: which pairs of initial arrays the session may start from;  Focus = "all" | "cache" (a reduced action menu aimed at cached state, explored deeper)
 VARIABLES reg, live, own, grp, warm, hist
 \* warm[r]: r went through a query since it was last written (an abstraction of 'caches may be populated'; it only
 \* serves to make the exhaustive exploration distinguish histories with queries)
@@ -33,13 +33,25 @@ Nil == [dims |-> <<>>, kinds |-> <<>>, labs |-> <<>>, aattrs |-> <<>>, dtype |->
 Seed1 == Fresh(<<"x", "y">>, <<"i", "i">>, << <<2, 4, 6>>, <<2, 4>> >>, <<1, 2>>, "f", 7, 100)
 Seed2 == Fresh(<<"x">>, <<"i">>, << <<6, 4, 8>> >>, <<3>>, "f", 8, 200)     \* labels stored unsorted
 
+\* other starting points: a 3-d array (z, x, y) with x stored unsorted and y decreasing next to a 2-d (y, x) one;
+\* a 1-d decreasing array next to a 2-d one with a singleton dimension
+Seed1b == Fresh(<<"z", "x", "y">>, <<"i", "i", "i">>, << <<8, 6>>, <<6, 2, 4>>, <<4, 2>> >>, <<3, 1, 2>>, "f", 7, 100)
+Seed2b == Fresh(<<"y", "x">>, <<"i", "i">>, << <<2, 4>>, <<4, 8>> >>, <<2, 1>>, "f", 8, 200)
+Seed1c == Fresh(<<"x">>, <<"i">>, << <<8, 6, 4, 2>> >>, <<1>>, "f", 7, 100)
+Seed2c == Fresh(<<"x", "w">>, <<"i", "i">>, << <<2, 4>>, <<6>> >>, <<1, 4>>, "f", 8, 200)
+SeedPair(s) == CASE s = 1 -> <<Seed1, Seed2>> [] s = 2 -> <<Seed1b, Seed2b>> [] s = 3 -> <<Seed1c, Seed2c>>
+
 Snapshot == [r \in Regs |-> IF live[r] THEN reg[r] ELSE Nil]
 Record(act, args) == hist' = Append(hist, [act |-> act, args |-> args, post |-> [r \in Regs |-> IF live'[r] THEN reg'[r] ELSE Nil],
                                            live |-> live', own |-> own'])
-Bound == Len(hist) < MaxDepth
+Bound == Len(hist) < MaxDepth + 1          \* (the first record of hist is the starting point)
 
-Init == /\ reg = [r \in Regs |-> IF r = "r1" THEN Seed1 ELSE IF r = "r2" THEN Seed2 ELSE Nil]
-        /\ live = [r \in Regs |-> r # "r3"] /\ own = [r \in Regs |-> r # "r3"] /\ warm = [r \in Regs |-> FALSE] /\ hist = <<>>
+Init == /\ \E s \in SeedIds :
+             /\ reg = [r \in Regs |-> IF r = "r1" THEN SeedPair(s)[1] ELSE IF r = "r2" THEN SeedPair(s)[2] ELSE Nil]
+             /\ hist = << [act |-> "init", args |-> [src |-> "", dst |-> "", k |-> "", l |-> <<>>],
+                           post |-> [r \in Regs |-> IF r = "r1" THEN SeedPair(s)[1] ELSE IF r = "r2" THEN SeedPair(s)[2] ELSE Nil],
+                           live |-> [r \in Regs |-> r # "r3"], own |-> [r \in Regs |-> r # "r3"]] >>
+        /\ live = [r \in Regs |-> r # "r3"] /\ own = [r \in Regs |-> r # "r3"] /\ warm = [r \in Regs |-> FALSE]
         /\ grp = [r \in Regs |-> IF r = "r1" THEN 1 ELSE IF r = "r2" THEN 2 ELSE 3]
 
 FreshGrp(dst) == CHOOSE g \in 1..4 : \A r \in Regs : (r # dst /\ live[r]) => grp[r] # g
@@ -161,7 +173,7 @@ Next == IF Focus = "cache" THEN NextCache ELSE NextAll
 
 Spec == Init /\ [][Next /\ (Emit => PrintT(ToJson([op |-> "ws_path", path |-> hist'])))]_allvars
 SpecSim == Init /\ [][NextAll]_allvars
-EmitFinal == (Len(hist) = MaxDepth) => PrintT(ToJson([op |-> "ws_path", path |-> hist]))
+EmitFinal == (Len(hist) = MaxDepth + 1) => PrintT(ToJson([op |-> "ws_path", path |-> hist]))
 View == state
 
 (* ---------- properties ---------- *)
